@@ -169,7 +169,8 @@ func runWithFaults(c *sim.Case, ho histOpts, ops []op, mons func() []monitor, ma
 	for i := 0; i < nf; i++ {
 		modes := []string{"before", "after"}
 		if ho.o.Store == "redis" {
-			modes = append(modes, "redis") // every Redis command of that store call fails (outage below the store)
+			// every Redis command of that store call fails (outage below the store), or only its n-th one (a hiccup)
+			modes = append(modes, "redis", "redis1", "redis2", "redis3", "redis4")
 		}
 		ho.faults[sim.Pick(c, "fault.pos", P)] = modes[sim.Pick(c, "fault.mode", len(modes))]
 	}
@@ -293,7 +294,7 @@ func c01Enum(pairs bool) func(c *sim.Case) {
 		p1 := sim.Pick(c, "pos", P)
 		modes := []string{"before", "after"}
 		if st == 1 {
-			modes = append(modes, "redis")
+			modes = append(modes, "redis", "redis1", "redis2", "redis3")
 		}
 		ho.faults[p1] = modes[sim.Pick(c, "mode", len(modes))]
 		if pairs {
